@@ -135,6 +135,17 @@ def getattr_(ex, o, name):
         return bind_class_attr(ex, o.selfv, owner, raw, name, type_of_recv(ex, o.selfv))
     if isinstance(o, ElemRef):
         return M.elem_get(ex, o, name)
+    if isinstance(o, M.EventView):
+        ev = o
+        if name == 'set':
+            return Builtin('set', lambda ex_, a, k: M.elem_set(ex_, ev.er, ev.name, True))
+        if name == 'clear':
+            return Builtin('clear', lambda ex_, a, k: M.elem_set(ex_, ev.er, ev.name, False))
+        if name == 'is_set':
+            return Builtin('is_set', lambda ex_, a, k: M.elem_get(ex_, ev.er, ev.name, raw=True))
+        if name == 'wait':
+            return Builtin('wait', lambda ex_, a, k: None)
+        raise Unsupported(f'asyncio.Event.{name}')
     if type(o).__name__ == 'OldView':
         if name == 'ghost':
             v = o.env.get('ghost')
@@ -1333,6 +1344,8 @@ def event_method(ex, recv, name, args):
         return None
     if name == 'is_set':
         return ex.getattr(recv, '_flag')
+    if name == 'wait':
+        return None
     raise Unsupported(f'asyncio.Event.{name}')
 
 
@@ -1347,6 +1360,9 @@ def call_native(ex, f, args, kwargs, node=None):
     if model is not None:
         return model(ex, *args, **kwargs)
     if isinstance(f, NativeMethod):
+        mod_ = getattr(f.raw, '__module__', '') or ''
+        if getattr(f.raw, '__name__', '') == '__init__' and (mod_.startswith('pyee') or f.raw is object.__init__):
+            return None  # event-emitter bookkeeping: environment
         raise Unsupported(f'native method {f.raw}')
     if isinstance(f, types.MethodType) and isinstance(f.__func__, types.FunctionType):
         fn = ex.func_of_native(f.__func__)
